@@ -1,5 +1,6 @@
 import Ecal.Drivers.Util
 import Ecal.Model.Expr
+import Ecal.Model.Lexer
 import Ecal.Gen.C03
 /-!
 Driver of C03. Payload (space separated), see `go/cmd/harness/c03.go`:
@@ -75,7 +76,21 @@ def toInt64 (tb : Tables) (x : Float) : Int :=
   else if x < -9223372036854775808.0 then tb.convNeg
   else x.toInt64.toInt
 
+/-- the truncation of a finite float as an exact integer -/
+def truncInt (x : Float) : Option Int :=
+  if x.isNaN || x.isInf then none
+  else
+    let (m, e) := x.frExp
+    let mi : Int := (m * 9007199254740992.0).toInt64.toInt
+    if e ≥ 53 then some (mi * 2 ^ (e - 53).toNat) else some (Int.tdiv mi (2 ^ (53 - e).toNat))
+
 def floatNum (tb : Tables) : Num Float where
+  inInt64 := fun x => match truncInt x with
+    | some i => decide (-9223372036854775808 ≤ i ∧ i < 9223372036854775808)
+    | none => false
+  wideMod := fun a b => match truncInt a, truncInt b with
+    | some x, some y => if y = 0 then none else some (Float.ofInt (Int.tmod x y))
+    | _, _ => none
   ofBits := fun b => Float.ofBits b.toUInt64
   add := (· + ·)
   sub := (· - ·)
@@ -163,10 +178,14 @@ def errName : ErrKind → String
   | .notANumber => "NotANumber" | .notABoolean => "NotABoolean" | .notAList => "NotAList"
   | .runtime => "RuntimeError"
 
+def showNode : Option Nat → String
+  | none => "self"
+  | some i => toString i
+
 def showOut : Out Float → String
   | .val v => "V " ++ showVal v
-  | .err .runtime _ => "E RuntimeError -"
-  | .err k n => "E " ++ errName k ++ " " ++ hexEnc n
+  | .err .runtime _ p => "E RuntimeError - " ++ showNode p
+  | .err k n p => "E " ++ errName k ++ " " ++ hexEnc n ++ " " ++ showNode p
 
 /-! ### coverage of the oracle tables: every float the model prints and every pair it
     matches must have an entry (otherwise the case is reported, never guessed) -/
@@ -191,19 +210,6 @@ def subs : Expr → List Expr
 def subsItems : Items → List Expr
   | .nil => []
   | .cons e rest => subs e ++ subsItems rest
-end
-
-mutual
-/-- assignment anywhere but at the root, or the left side not a plain identifier: outside the fragment -/
-def hasAssign : Expr → Bool
-  | .atom _ => false
-  | .list its => hasAssignItems its
-  | .bin .assign _ _ _ => true
-  | .bin _ _ l r => hasAssign l || hasAssign r
-  | .pre _ _ x => hasAssign x
-def hasAssignItems : Items → Bool
-  | .nil => false
-  | .cons e rest => hasAssign e || hasAssignItems rest
 end
 
 def missing (tb : Tables) (G : Cfg Float) (e : Expr) : Option String :=
@@ -291,74 +297,154 @@ def envCfg (tb : Tables) (env : List (Str × Val Float)) : Cfg Float :=
                               | some (_, v) => v
                               | none => .null }
 
-/-- the outcome of one evaluation of `e` (root assignment: the value bound) -/
-def evalOnce (tb : Tables) (G : Cfg Float) (e : Expr) : String :=
-  match e with
-  | .bin .assign _ (.atom (.ident name)) r =>
-    if hasAssign r then "UNSUPPORTED nested-assign"
-    else match missing tb G r with
-      | some m => m
-      | none =>
-        (match Impl.eval G r with
-         | .val v => "A " ++ hexEnc name ++ " " ++ showVal v
-         | o => showOut o)
-  | _ =>
-    if hasAssign e then "UNSUPPORTED nested-assign"
-    else match missing tb G e with
-      | some m => m
-      | none => showOut (Impl.eval G e)
+/-! ### tokens: the Lean lexer model (`Ecal.Lex`, tied to lexer.go by C18/C07) on the source —
+    the model does not see the output of the real lexer -/
 
-/-- parse ONCE, then one INDEPENDENT evaluation per environment: the model has no state that
-    could carry anything from one evaluation to the next -/
-def runMulti (conv toks ftext regex envs : String) : String :=
-  match (conv.splitOn ",").mapM String.toInt?, (toks.splitOn ";").mapM parseTok, parseFText ftext, parseRegex regex,
-        (envs.splitOn "|").mapM parseEnv with
-  | some [c1, c2, c3], some ts, some ft, some rx, some es =>
-    let tb : Tables := { convNaN := c1, convPos := c2, convNeg := c3, ftext := canonFText ft, regex := rx }
-    if ts.any (fun t => match t.tk with | .other _ => true | _ => false) then "UNSUPPORTED other-token"
-    else
-      match Impl.parse Ecal.Gen.C03.table ts with
-      | .error .fuel => "FUEL"
-      | .error .unsupported => "UNSUPPORTED parse"
-      | .error _ => "PARSEERR -"
-      | .ok e =>
-        showTree e ++ " " ++ "|".intercalate (es.map fun env => evalOnce tb (envCfg tb env) e) ++ "\tnt=1"
-  | _, _, _, _, _ => "bad-payload"
+def binOpOfText : String → Option BinOp
+  | ">=" => some .geq | "<=" => some .leq | "!=" => some .neq | "==" => some .eq
+  | ">" => some .gt | "<" => some .lt
+  | "+" => some .plus | "-" => some .minus | "*" => some .times | "/" => some .div
+  | "//" => some .divint | "%" => some .modint
+  | "and" => some .and | "or" => some .or
+  | "like" => some .like | "in" => some .isin | "hasprefix" => some .hasprefix
+  | "hassuffix" => some .hassuffix | "notin" => some .notin | ":=" => some .assign
+  | _ => none
+
+/-- token id → its text in the lexer's symbol / keyword tables -/
+def idText (id : Nat) : Option String :=
+  ((Ecal.Lex.symbolTable ++ Ecal.Lex.keywordTable).find? (·.2 = id)).map (·.1)
+
+/-- `none` for a NUMBER whose float bits were not shipped -/
+def tkOfLex (num : List (Str × Nat)) (t : Ecal.Lex.Tok) : Option TK :=
+  if t.id = Ecal.Lex.tEOF then some .eof
+  else if t.id = Ecal.Lex.tSTRING then some (.atom (.str t.val))
+  else if t.id = Ecal.Lex.tIDENTIFIER then some (.atom (.ident t.val))
+  else if t.id = Ecal.Lex.tNUMBER then (num.find? (·.1 = t.val)).map fun (_, b) => .atom (.num t.val b)
+  else if t.id = Ecal.Lex.tERROR then some (.other (strBytes "ERROR"))
+  else match idText t.id with
+    | some "(" => some .lp | some ")" => some .rp | some "[" => some .lb | some "]" => some .rb
+    | some "," => some .comma
+    | some "not" => some (.not t.val)
+    | some "true" => some (.atom (.tru t.val))
+    | some "false" => some (.atom (.fls t.val))
+    | some "null" => some (.atom (.null t.val))
+    | some s => some (match binOpOfText s with
+                      | some o => .op o t.val
+                      | none => .other (strBytes s))
+    | none => some (.other (strBytes "?"))
+
+def lowerStr (s : Str) : Str := s.map fun c => if 65 ≤ c ∧ c ≤ 90 then c + 32 else c
+
+/-- the generator's INTENDED token texts against the lexed tokens: same number of tokens, same
+    text up to letter case; string literals are only required to be string tokens -/
+def intendedOk (intended : List Str) (ts : List LTok) : Bool :=
+  let body := ts.filter fun t => t.tk != .eof
+  body.length = intended.length &&
+  (body.zip intended).all fun (t, w) =>
+    match t.tk with
+    | .atom (.str _) => w.head? = some 34 || w.head? = some 39 || w.head? = some 114
+    | .atom (.num v _) => lowerStr v = lowerStr w
+    | .atom (.ident v) => v = w
+    | .atom (.tru v) | .atom (.fls v) | .atom (.null v) | .not v | .op _ v => v = w
+    | .lp => w = [40] | .rp => w = [41] | .lb => w = [91] | .rb => w = [93] | .comma => w = [44]
+    | _ => false
+
+/-! ### one case -/
+
+def field (fs : List (String × String)) (k : String) : Option String := (fs.find? (·.1 = k)).map (·.2)
+
+def splitField (s : String) : String × String :=
+  match s.splitOn "=" with
+  | [] => ("", "")
+  | [a] => (a, "")
+  | a :: rest => (a, "=".intercalate rest)
+
+def parseNum (s : String) : Option (List (Str × Nat)) :=
+  if s = "-" then some [] else
+  (s.splitOn ",").mapM fun e => match e.splitOn ":" with
+    | [t, b] => do some ((← hexDecode t), (← hexNat b))
+    | _ => none
+
+/-- one statement under one environment: (as the code does, as the reference says) -/
+def evalStmt (tb : Tables) (G : Cfg Float) (e : Expr) : String × String :=
+  match missing tb G e with
+  | some m => (m, m)
+  | none => (showOut (Impl.eval G e), showOut (Spec.eval G e))
+
+def isErrOut (s : String) : Bool := s.startsWith "E " || s.startsWith "MISSING"
+
+/-- a program under one environment: statements in order, the first error ends it, otherwise the
+    value of the last one; `r := e` alone: the value bound -/
+def evalProgram (tb : Tables) (G : Cfg Float) (es : List Expr) : String × String :=
+  match es with
+  | [.bin .assign _ (.atom (.ident name)) r] =>
+    let (a, b) := evalStmt tb G r
+    let wrap (x : String) := if x.startsWith "V " then "A " ++ hexEnc name ++ " " ++ (x.drop 2).toString else x
+    (wrap a, wrap b)
+  | _ =>
+    let outs := es.map (evalStmt tb G)
+    let pick (sel : String × String → String) : String :=
+      match (outs.map sel).find? isErrOut with
+      | some e => e
+      | none => ((outs.map sel).getLast?).getD "V n"
+    (pick (·.1), pick (·.2))
+
+def showProgram : List Expr → String
+  | [e] => showTree e
+  | es => "(statements" ++ String.join (es.map fun e => "," ++ showTree e) ++ ")"
 
 def runCase (payload : String) : String :=
-  match payload.splitOn " " with
-  | ["M", _src, conv, toks, ftext, regex, envs] => runMulti conv toks ftext regex envs
-  | [_src, conv, toks, ftext, regex] =>
-    match (conv.splitOn ",").mapM String.toInt?, (toks.splitOn ";").mapM parseTok, parseFText ftext, parseRegex regex with
-    | some [c1, c2, c3], some ts, some ft, some rx =>
+  let fs := (payload.splitOn " ").map splitField
+  match field fs "src", field fs "conv", field fs "num", field fs "ft", field fs "re" with
+  | some src, some conv, some num, some ft, some re =>
+    match hexDecode src, (conv.splitOn ",").mapM String.toInt?, parseNum num, parseFText ft, parseRegex re,
+          ((field fs "env").getD "*").splitOn "|" |>.mapM (fun e => if e = "*" then some none else (parseEnv e).map some),
+          (match field fs "int" with
+           | none => some none
+           | some "-" => some (some [])
+           | some s => ((s.splitOn ",").mapM hexDecode).map some) with
+    | some src, some [c1, c2, c3], some num, some ft, some rx, some envs, some intended =>
       let tb : Tables := { convNaN := c1, convPos := c2, convNeg := c3, ftext := canonFText ft, regex := rx }
-      if ts.any (fun t => match t.tk with | .other _ => true | _ => false) then "UNSUPPORTED other-token"
-      else
-        match Impl.parse Ecal.Gen.C03.table ts with
-        | .error .fuel => "FUEL"
-        | .error .unsupported => "UNSUPPORTED parse"
-        | .error _ => "PARSEERR -"
-        | .ok e =>
-          let G := cfg tb
-          let tree := showTree e
-          match e with
-          | .bin .assign _ (.atom (.ident name)) r =>
-            if hasAssign r then "UNSUPPORTED nested-assign"
-            else match missing tb G r with
-              | some m => m
-              | none =>
-                (match Impl.eval G r with
-                 | .val v => tree ++ " A " ++ hexEnc name ++ " " ++ showVal v ++ "\tnt=1"
-                 | o => tree ++ " " ++ showOut o ++ "\tnt=1")
-          | _ =>
-            if hasAssign e then "UNSUPPORTED nested-assign"
-            else match missing tb G e with
-              | some m => m
-              | none =>
-                let nt := match e with | .atom _ => "" | _ => "\tnt=1"
-                tree ++ " " ++ showOut (Impl.eval G e) ++ nt
-    | _, _, _, _ => "bad-payload"
-  | _ => "bad-payload"
+      let lexed := (Ecal.Lex.lex src).toList
+      match lexed.mapM (fun t => (tkOfLex num t).map fun k => LTok.mk k t.line) with
+      | none => "MISSING-NUMBER-BITS"
+      | some ts =>
+        let lexdiff := match intended with
+          | some w => !intendedOk w ts
+          | none => false
+        if lexdiff then "LEXDIFF the lexer model's tokens are not the generator's intended tokens"
+        else if ts.any (fun t => t.tk == .other (strBytes "ERROR")) then "PARSEERR -"
+        else if ts.any (fun t => match t.tk with | .other _ => true | _ => false) then "UNSUPPORTED other-token"
+        else
+          match Impl.parseProgram Ecal.Gen.C03.table (ts.length + 1) ts with
+          | .error .fuel => "FUEL"
+          | .error .unsupported => "UNSUPPORTED parse"
+          | .error _ => "PARSEERR -"
+          | .ok es =>
+            let tree := showProgram es
+            let nested := match es with
+              | [.bin .assign _ (.atom (.ident _)) r] => hasAssign r
+              | _ => es.any hasAssign
+            if nested then tree ++ " NESTED-ASSIGN"
+            else
+              let outs := envs.map fun env =>
+                let G := match env with
+                  | some e => envCfg tb e
+                  | none => cfg tb
+                evalProgram tb G es
+              let a := "|".intercalate (outs.map (·.1))
+              let b := "|".intercalate (outs.map (·.2))
+              let nt := match es with | [.atom _] => "" | _ => "\tnt=1"
+              if a = b then tree ++ " " ++ a ++ nt
+              else
+                -- the code deviates from the reference: which known finding?
+                let coreOf (x : String) : String :=
+                  "|".intercalate ((x.splitOn "|").map fun o =>
+                    if o.startsWith "E " then " ".intercalate ((o.splitOn " ").take 3) else o)
+                let kf := if coreOf a = coreOf b then "error-node-left-operand" else "mod-out-of-int64-range"
+                tree ++ " " ++ a ++ nt ++ "\tkf=" ++ kf ++ "\tspec=" ++ tree ++ " " ++ b
+    | _, _, _, _, _, _, _ => "bad-payload"
+  | _, _, _, _, _ => "bad-payload"
 
 /-! ### search: the documented grammar's prints of all operator pairs (independent of the table) -/
 
